@@ -27,19 +27,43 @@ def cheat_worlds():
     w2 = World("cheat-builds", {"s": ["0", "1"]},
                dict(common_, **{"b.do": [S(seq=(("redo", ("x",)),), sync=(("start", "wait", "x-started"), ("end", "set", "b-done")))]}),
                ["a", "b", "c", "x"], ["a", "b", "c"])
-    return w1, w2
+    # as cheat-uptodate, but b's script then starts a redo of its own that knows nothing of the jobserver above it (MAKEFLAGS
+    # removed): a separate one-token jobserver -- which must not share the outer build's cheat pipe either
+    w3 = World("cheat-then-fresh-redo", {"s": ["0", "1"]},
+               dict(common_, **{"b.do": [S(seq=(("ifchange", ("x",)), ("redo-fresh", ("inner",))),
+                                           sync=(("start", "wait", "x-started"), ("end", "set", "b-done")))],
+                                "inner.do": [S(deps=["s"], out="file")]}),
+               ["a", "b", "c", "x", "inner"], ["a", "b", "c"])
+    return w1, w2, w3
 
 
 def scenarios(tier):
     w = SC.W()
     q = tier == "quick"
     L = []
-    cw1, cw2 = cheat_worlds()
+    cw1, cw2, cw3 = cheat_worlds()
     L.append((SC.scn("own-log-cheat-uptodate-j2", cw1, ["redo -j2 b a c"], visible=VIS, limit=2, log_mode=True), 1 if q else 2))
     L.append((SC.scn("own-log-cheat-builds-j2", cw2, ["redo -j2 b a c"], visible=VIS, limit=2, log_mode=True), 1 if q else 2))
+    L.append((SC.scn("own-log-cheat-then-fresh-redo-j2", cw3, ["redo -j2 b a c"], visible=VIS, limit=3, log_mode=True), 0 if q else 1))
     # the same under an inherited jobserver: the pipe must hold exactly N-1 tokens and no cheat byte afterwards
     L.append((SC.scn("inherit-log-cheat-uptodate-n2", cw1, ["redo-ifchange b a c"], visible=VIS, jobserver=2, limit=2, log_mode=True), 0 if q else 1))
     L.append((SC.scn("inherit-log-cheat-builds-n2", cw2, ["redo-ifchange b a c"], visible=VIS, jobserver=2, limit=2, log_mode=True), 0 if q else 1))
+    # ... and under a parent that is a real GNU make: only MAKEFLAGS is inherited, no cheat pipe
+    L.append((SC.scn("make-log-cheat-uptodate-n2", cw1, ["redo-ifchange b a c"], visible=VIS, jobserver=2, limit=2, log_mode=True,
+                     no_cheatfds=True, make_player=1), 1))
+    L.append((SC.scn("make-log-cheat-builds-n2", cw2, ["redo-ifchange b a c"], visible=VIS, jobserver=2, limit=2, log_mode=True,
+                     no_cheatfds=True, make_player=1), 0 if q else 1))
+    # a redo under a real make parent whose only job waits for a target that an INDEPENDENT redo (own jobserver) is building:
+    # the sub-redo hands its token back, make may give it to somebody else, the sub-redo cheats once the lock is free.  When
+    # everything has exited make must have exactly the tokens it started with.
+    from ..worlds import S, World
+    mw = World("make-one-job", {"s": ["0", "1"]},
+               {"x.do": [S(deps=["s"], sync=(("start", "set", "x-started"), ("mid", "wait", "b-started")))],
+                "b.do": [S(deps=["x"], sync=(("start", "wait", "x-started"), ("start", "set", "b-started")))]},
+               ["x", "b"], ["b"])
+    L.append((SC.scn("make-parent-takes-the-handed-back-token-n1", mw,
+                     [{"name": "T0", "argv": ["redo", "--no-log", "x"], "env": {"MAKEFLAGS": ""}}, {"name": "T1", "argv": ["redo-ifchange", "b"]}],
+                     visible=VIS, jobserver=1, limit=2, log_mode=True, no_cheatfds=True, make_player=1), 1 if q else 2))
     # own jobserver: redo -jN creates the pipes and checks itself on exit
     L.append((SC.scn("own-fan3-j2", w["fan3"], ["redo --no-log -j2 top"], visible=VIS, limit=2), 1 if q else 2))
     L.append((SC.scn("own-fan3x2-j2", w["fan3x2"], ["redo --no-log -j2 t1 t2"], visible=VIS, limit=2), 1 if q else 2))
